@@ -224,7 +224,16 @@ pub fn gen_stream(info: &MethodInfo, p: &Params, r: &mut Rng, len: usize, fault_
 				// subnormal magnitudes only where every operation of the method is a selection (exact for any value)
 				return order_pattern(&mut rv, len, window, fc, info.name != "MedianAbsDev");
 			}
-			feed::to_in_vals(&feed::values(&mut rv, len, &cfg, fc))
+			let mut vals = feed::values(&mut rv, len, &cfg, fc);
+			// RateOfChange divides by the value leaving the window: streams stay away from zero, but three in ten lie
+			// entirely below it (a negative base must keep its sign in the quotient)
+			if matches!(info.name, "RateOfChange") && rv.chance(0.3) {
+				for v in vals.iter_mut() {
+					*v = -*v;
+				}
+				*fc.entry("feed:all_negative".into()).or_insert(0) += 1;
+			}
+			feed::to_in_vals(&vals)
 		}
 		InKind::Pair => {
 			if info.name == "VWMA" {
